@@ -2,6 +2,7 @@
   C14 - Constant expressions denote one integer, the same in every back-end.
 -/
 import ProphyModel.Expr
+import ProphyModel.Properties.Tables
 import ProphyModel.Generated.Precedence
 import ProphyModel.Lemmas.ExprPrint
 namespace Prophy.C14
